@@ -527,4 +527,54 @@ theorem feedAll_segmentation (segs : List Bytes) : ∀ (s : St), Quiet s →
       simp only [flat, List.append_nil, f1]
       exact List.prefix_append _ _
 
+/-! ### the buffered partial head never exceeds the bytes received -/
+
+def accLen : St → Nat
+  | .head acc _ => acc.length
+  | _ => 0
+
+theorem norm_accLen (p : Option Kind) : accLen (norm p).2 = 0 := by
+  unfold norm
+  split <;> rfl
+
+theorem stepSt_accLen (s : St) (b : UInt8) : accLen (stepSt s b).1 ≤ accLen s + 1 := by
+  cases s with
+  | dead e => simp [stepSt, accLen]
+  | head acc q =>
+    simp only [stepSt]
+    cases hscanStep q b with
+    | some q' => simp [accLen]
+    | none =>
+      simp only [complete]
+      split
+      · simp [accLen]
+      · simp [norm_accLen]
+  | body k =>
+    cases k with
+    | length rem => simp [stepSt, norm_accLen]
+    | eof => simp [stepSt, accLen]
+    | chunked st sz =>
+      simp only [stepSt]
+      split
+      · simp [norm_accLen]
+      · simp [accLen]
+      · simp [accLen]
+
+theorem runSt_accLen (bs : Bytes) : ∀ (s : St), accLen (runSt s bs).1 ≤ accLen s + bs.length := by
+  induction bs with
+  | nil => intro s; simp
+  | cons b t ih =>
+    intro s
+    rw [runSt_cons]
+    have h1 := ih (stepSt s b).1
+    have h2 := stepSt_accLen s b
+    simp only [List.length_cons]
+    omega
+
+theorem quiet_init : Quiet (.head [] .lead0) := by
+  refine ⟨by simp [StOk], ?_⟩
+  simp [limitCheck, conc, Consts.h1MaxBufferSize]
+
+theorem quiet_body {k : Kind} (h : Normal k) : Quiet (.body k) := ⟨h, by simp [conc]⟩
+
 end ActixModel.H1
